@@ -1403,6 +1403,55 @@ impl DhtCoreEngine {
     }
 }
 
+#[cfg(feature = "verif-hooks")]
+impl DhtCoreEngine {
+    /// Engine with permissive (log-only) close-group validation, as the
+    /// network manager builds it.
+    pub fn verif_new_log_only(node_id: NodeId) -> Result<Self> {
+        Self::new_with_validation_mode(node_id, CloseGroupEnforcementMode::LogOnly)
+    }
+
+    /// `(node id bytes, address)` of every routing-table entry, bucket by bucket.
+    pub async fn verif_routing_snapshot(&self) -> Vec<([u8; 32], String)> {
+        let routing = self.routing_table.read().await;
+        routing
+            .buckets
+            .iter()
+            .flat_map(|b| b.get_nodes().iter())
+            .map(|n| (*n.id.as_bytes(), n.address.clone()))
+            .collect()
+    }
+
+    /// `(key, value)` of every record in the local store.
+    pub async fn verif_store_dump(&self) -> Vec<([u8; 32], Vec<u8>)> {
+        let store = self.data_store.read().await;
+        store
+            .data
+            .iter()
+            .map(|(k, v)| (*k.as_bytes(), v.clone()))
+            .collect()
+    }
+
+    /// Number of entries in the pending-request table.
+    pub async fn verif_pending_len(&self) -> usize {
+        self.pending_requests.read().await.len()
+    }
+
+    /// The IP diversity enforcer guarding routing-table admission.
+    pub fn verif_ip_diversity_enforcer(&self) -> Arc<RwLock<IPDiversityEnforcer>> {
+        self.ip_diversity_enforcer.clone()
+    }
+
+    /// Per-region counts of the geographic diversity gate.
+    pub async fn verif_region_counts(&self) -> Vec<(String, usize)> {
+        let g = self.geographic_diversity_enforcer.read().await;
+        g.region_counts
+            .iter()
+            .map(|(r, c)| (format!("{r:?}"), *c))
+            .collect()
+    }
+}
+
 // Manual Debug implementation to avoid cascade of Debug requirements
 impl std::fmt::Debug for DhtCoreEngine {
     fn fmt(&self, f: &mut std::fmt::Formatter<'_>) -> std::fmt::Result {
